@@ -53,6 +53,36 @@ func directiveFor(mask int, r *Rand) string {
 	return ";;;; " + strings.Join(parts, ", ") + "\n"
 }
 
+// wideNested builds (not|if|= ... (and (and v..) (and v..) ...)) over boolean variables and constants
+func wideNested(r *Rand) *GT {
+	name := []string{"and", "or", "&&", "||"}[r.Intn(4)]
+	groups := 2 + r.Intn(3)
+	per := 40 + r.Intn(70)
+	leaf := func() *GT {
+		if r.Intn(3) == 0 {
+			return gconst(name == "and" || name == "&&")
+		}
+		return gvar(boolVars[r.Intn(len(boolVars))])
+	}
+	var gs []*GT
+	for g := 0; g < groups; g++ {
+		ch := make([]*GT, per)
+		for i := range ch {
+			ch[i] = leaf()
+		}
+		gs = append(gs, gop(name, ch...))
+	}
+	w := gop(name, gs...)
+	switch r.Intn(3) {
+	case 0:
+		return gop("not", w)
+	case 1:
+		return gif(w, gconst(int64(1)), gconst(int64(0)))
+	default:
+		return gop("=", w, gconst(true))
+	}
+}
+
 func valEq(a, b interface{}) bool { return coqValue(a) == coqValue(b) }
 
 func init() {
@@ -60,7 +90,7 @@ func init() {
 		ID:   "C02",
 		Rule: "random typed trees (no failing variables; operators may fail, e.g. division by zero behind guards) x ALL 16 optimisation subsets set programmatically and again by `;;;;` directive comments x cost maps (integers incl. negative, zero, 2^40) x stateless declarations x bindings of all variables: (a) all configurations that return a value return the same one, (b) with Reordering off every configuration returns the unoptimised value when that evaluation succeeds, (c) directive and programmatic configuration give the same Dump and result, (d) Go's optimised tree equals the model's `optimize` and its Eval equals `sem` of it; non-trivial = at least two configurations returned a value; distinct = distinct (source, costs, binding)",
 		Assumptions: []string{"cost maps are integer-valued (exact in float64); NaN/Inf costs are covered by the theorem for arbitrary permutations, not by the correspondence"},
-		Behav:       []int{5, 2}, Fidelity: []int{1, 3, 4, 8, 9, 10}, Ignore: []int{6, 7, 50}, CodeText: evalCodeText,
+		Behav:       []int{5, 2}, Fidelity: []int{1, 3, 4, 8, 9, 10, 15}, Ignore: []int{6, 7, 50}, CodeText: evalCodeText,
 		Gen: func(c *RunCtx) []*Batch {
 			r := c.R
 			b := evalBatch("C02", "optimise")
@@ -72,6 +102,11 @@ func init() {
 				gc.WrongType = []int{0, 0, 0, 3}[r.Intn(4)]
 				gc.Wide = 0
 				t := randTree(r, gc)
+				if k%40 == 7 {
+					// nested same-kind and/or groups that flatten to 100..300 operands, consumed by an enclosing operator:
+					// legal as written; subsets with ReduceNesting may reject it (capacity), none may change the value
+					t = wideNested(r)
+				}
 				st, costs := randStateless(r), randCosts(r)
 				bind := randBinding(r)
 				var runs [16]subsetRun
@@ -117,6 +152,9 @@ func init() {
 				// (b) reordering off: the unoptimised value
 				if runs[0].cerr == nil && runs[0].err == nil && runs[0].pan == nil {
 					for mask := 0; mask < 8; mask++ {
+						if runs[mask].cerr != nil && cerrCode(runs[mask].cerr) != 9 && cerrCode(runs[mask].cerr) != 0 {
+							continue // rejected by a capacity limit after flattening: no value is returned, none is changed
+						}
 						if runs[mask].cerr != nil || runs[mask].err != nil || !valEq(runs[mask].val, runs[0].val) {
 							c.Direct = append(c.Direct, DirectViolation{What: fmt.Sprintf("Reordering off, subset %d: unoptimised evaluation returns %v but this configuration returns %v / %v", mask, runs[0].val, runs[mask].val, runs[mask].err), Sig: "c02-reorder-off",
 								Sample: map[string]interface{}{"source": t.Src(), "binding": fmt.Sprint(bind.Vals)}})
@@ -139,7 +177,7 @@ func init() {
 		ID:   "C10",
 		Rule: "trees rich in constant sub-expressions mixing built-in operators, registered operators declared stateless, registered operators not declared (incl. zero-operand ones) and names declared but not registered, failing constant sub-expressions (division by zero, bad version strings) behind and/or/if guards, x optimisation subsets x 1..5 repeated evaluations, many configurations built in one process; the operators invoked with a nil context during Compile are compared with the model's constant-folding log, Go's optimised tree with the model's, and every evaluation's operator calls with `sem` (so an undeclared operator must be called again in every evaluation); non-trivial = a registered operator occurs; distinct = distinct (source, config)",
 		Assumptions: []string{"registered operators record their own invocations; a nil *Ctx marks a compile-time invocation"},
-		Behav:       []int{9, 5, 2}, Fidelity: []int{1, 3, 4, 8, 10}, Ignore: []int{6, 7, 50}, CodeText: evalCodeText,
+		Behav:       []int{9, 15, 5, 2}, Fidelity: []int{1, 3, 4, 8, 10}, Ignore: []int{6, 7, 50}, CodeText: evalCodeText,
 		Gen: func(c *RunCtx) []*Batch {
 			r := c.R
 			b := evalBatch("C10", "folding")
@@ -211,7 +249,7 @@ func init() {
 		ID:   "C16",
 		Rule: "and/or nodes with 2..127 operands, many of equal estimated cost (so a non-stable sort is visible above 12 elements), nested under other operators and `if`, x cost maps (per-name, `variable`/`operator` defaults, negative, zero, 2^40) and pairs of cost maps differing in one entry, Reordering alone and with the other optimisations; Go's optimised tree (operand order of every node) is compared with the model's stable cost-directed `reorder`; non-trivial = some and/or node has two operands of equal cost or the order changed; distinct = distinct (source, costs)",
 		Assumptions: []string{"integer-valued costs (exact in float64)"},
-		Behav:       []int{1, 5, 2}, Fidelity: []int{3, 4, 8, 9, 10}, Ignore: []int{6, 7, 50}, CodeText: evalCodeText,
+		Behav:       []int{1, 5, 2}, Fidelity: []int{3, 4, 8, 9, 10, 15}, Ignore: []int{6, 7, 50}, CodeText: evalCodeText,
 		Gen: func(c *RunCtx) []*Batch {
 			r := c.R
 			b := evalBatch("C16", "reorder")
